@@ -405,7 +405,7 @@ class Weaver:
         body = rl.text_of(toks, it.body_open, it.last)
         body = strip_comments_keep_lines(body)
         body = resolve_cfg_in_body(body, self.config)
-        body, counts = apply_rewrites(body)
+        body, counts = apply_rewrites(body, declared={r1 for r in rw_expect for r1 in r.split('+')})
         info.rewrites = counts
         declared = set()
         for r, c in rw_expect.items():
